@@ -41,7 +41,12 @@ func verifMirror(raw []byte) interface{} {
 		return map[string]string{"error": err.Error()}
 	}
 	opts = NewOptions()
-	opts.IPFIXUDPSize, opts.SFlowUDPSize = c.UDPSize, c.UDPSize
+	// the pool of the OTHER protocol gets a different buffer size, so that a buffer returned to the wrong pool is visible
+	if c.Proto == "ipfix" {
+		opts.IPFIXUDPSize, opts.SFlowUDPSize = c.UDPSize, c.UDPSize+512
+	} else {
+		opts.IPFIXUDPSize, opts.SFlowUDPSize = c.UDPSize+512, c.UDPSize
+	}
 	logger = log.New(ioutil.Discard, "", 0)
 	ipfixBuffer = &sync.Pool{New: func() interface{} { return make([]byte, opts.IPFIXUDPSize) }}
 	sFlowBuffer = &sync.Pool{New: func() interface{} { return make([]byte, opts.SFlowUDPSize) }}
@@ -138,5 +143,15 @@ func verifMirror(raw []byte) interface{} {
 		}
 		results = append(results, obs)
 	}
-	return map[string]interface{}{"results": results}
+	// pool integrity: every buffer now in a pool has that pool's size
+	foreign := 0
+	for i := 0; i < 64; i++ {
+		if b := ipfixBuffer.Get().([]byte); cap(b) != opts.IPFIXUDPSize {
+			foreign++
+		}
+		if b := sFlowBuffer.Get().([]byte); cap(b) != opts.SFlowUDPSize {
+			foreign++
+		}
+	}
+	return map[string]interface{}{"results": results, "foreign_buffers": foreign}
 }
